@@ -1363,13 +1363,42 @@ def Closed (w : World) (ms : ModelS) : Prop :=
 
 instance (w : World) (ms : ModelS) : Decidable (Closed w ms) := by unfold Closed; infer_instance
 
+/-- distinct named values of the list have distinct names -/
+def UniqueOn (w : World) (vals : List VId) : Prop :=
+  ∀ a ∈ vals, ∀ b ∈ vals, (w.value a).name = (w.value b).name → (w.value a).name ≠ "" → a = b
+
+instance (w : World) (vals : List VId) : Decidable (UniqueOn w vals) := by unfold UniqueOn; infer_instance
+
+/-- the values a graph declares or uses itself: inputs, initializers, inputs and outputs of its own nodes -/
+def ownVals (w : World) (g : GId) : List VId :=
+  (w.graph g).inputs ++ (w.graph g).inits ++
+  ((w.graph g).nodes.map (fun n => (w.node n).inputs.filterMap id ++ (w.node n).outputs)).flatten
+
+/-- for graph `g` entered with the values `ov` of its enclosing graphs, and for every graph nested under it: the
+    values of its scope chain (own values and those of all enclosing graphs); nesting depth bounded by the fuel -/
+def chainsF (w : World) : Nat → List VId → GId → List (List VId)
+  | 0, _, _ => []
+  | f + 1, ov, g =>
+    (ov ++ ownVals w g) ::
+      ((w.graph g).nodes.map (fun n => ((w.node n).subgraphs.map (chainsF w f (ov ++ ownVals w g))).flatten)).flatten
+
+/-- **per-scope-chain uniqueness of names** (what ONNX asks for): for every graph of the model, the named values
+    of the graph itself and of all its enclosing graphs have pairwise different names.  Sibling subgraphs (the
+    branches of an `If`), different function bodies, a function body and the main graph may use the same names;
+    a subgraph may not reuse (shadow) a name of one of its enclosing graphs. -/
+def NamesChain (w : World) (ms : ModelS) : Prop :=
+  ∀ r ∈ ms.roots, ∀ vs ∈ chainsF w (w.graphs.length + 1) [] r, UniqueOn w vs
+
+instance (w : World) (ms : ModelS) : Decidable (NamesChain w ms) := by unfold NamesChain; infer_instance
+
 /-- **the in-alphabet condition** of an operation (hypothesis of `C19_step`): ids exist; the
     configuration passed to an annotation call is registered on the node's model and the device
     indices are inside it; a configuration is removed with `cascade=True`; clone and round trip are
     taken of a model whose node / graph lists are `Closed` (so are `Function.clone` and
     `Graph.clone(allow_outer_scope_values=True)`, the latter of a graph of every model that lists the
     node the clone is attached to); a round trip is taken at IR version >= 11
-    of a model whose named values have unique names.  Everything else is unrestricted — in particular every
+    of a model whose named values have unique names along every scope chain (`NamesChain`: a graph together
+    with its enclosing graphs; sibling subgraphs, function bodies and the main graph may reuse names).  Everything else is unrestricted — in particular every
     *invalid* annotation request is in the alphabet.  A node is re-attached only to models that
     register the configurations it (and everything nested under it) references; a shape is edited
     only on a value that is not sharded; a directly assigned annotation tuple / configuration tuple is
@@ -1386,7 +1415,7 @@ def Pre (w : World) : Op → Prop
   | .setDev n dev => NodeOK w { (w.node n) with dev := dev } ∧ ∀ nc ∈ dev, RegOn w n nc.cfg
   | .setModelCfgs m cfgs => ModelOK w { (w.model m) with cfgs := cfgs }
   | .clone m => Closed w (w.model m)
-  | .roundTrip m => 11 ≤ (w.model m).irVersion ∧ Closed w (w.model m) ∧ NamesUnique w (w.model m)
+  | .roundTrip m => 11 ≤ (w.model m).irVersion ∧ Closed w (w.model m) ∧ NamesChain w (w.model m)
   | .cloneFunc m _ => Closed w (w.model m)
   | .cloneSub n g => (∃ ms ∈ w.models, n ∈ ms.nodes) ∧ ∀ ms ∈ w.models, n ∈ ms.nodes → g ∈ ms.graphs ∧ Closed w ms
   | _ => True
